@@ -572,3 +572,88 @@ CONTRACTS = [
       raises={"ValueError": "(order is not None and size is not None) or node not in V(hg)"},
       ensures={"result": "result == card({k for k in E(hg) if node in snd(k) and sel(hg, k, order, size, False)})"}),
 ]
+
+
+# ------------------------------------------------------------------ aggregate(time_window)  (C03)
+# tsum(B, e): sum over the records (t, e) of the list B of their weights in self (fold over the list); wstart(w, T) = start of window w = w * T,
+# defined by wstart(0) = 0, wstart(w + 1) = wstart(w) + T (no multiplication is handed to the solver)
+_BK = T.Bag(TK)
+TSUM = z3.Function("tsum_t", z3.ArraySort(TK.sort(), T.I), z3.ArraySort(T.I, T.R), _BK.sort(), T.TupS, T.R)
+TSDIFF = z3.Function("tsum_t_diff", _BK.sort(), _BK.sort(), TK.sort())
+WSTART = z3.Function("wstart", T.I, T.I, T.I)
+_te, _tw, _tb, _tb2, _tx, _tk = (z3.Const("_tse", z3.ArraySort(TK.sort(), T.I)), z3.Const("_tsw", z3.ArraySort(T.I, T.R)), z3.Const("_tsb", _BK.sort()),
+                                 z3.Const("_tsb2", _BK.sort()), z3.Const("_tsx", TK.sort()), z3.Const("_tsk", T.TupS))
+_ww, _wt = z3.Int("_wsw"), z3.Int("_wst")
+TH.EXTRA.update({
+    "tsum_t_empty (definition)": z3.ForAll([_te, _tw, _tk], TSUM(_te, _tw, z3.K(TK.sort(), z3.IntVal(0)), _tk) == 0,
+                                           patterns=[TSUM(_te, _tw, z3.K(TK.sort(), z3.IntVal(0)), _tk)]),
+    "tsum_t_step (definition)": z3.ForAll([_te, _tw, _tb, _tx, _tk], TSUM(_te, _tw, z3.Store(_tb, _tx, _tb[_tx] + 1), _tk) == TSUM(_te, _tw, _tb, _tk) +
+                                          z3.If(TK.snd(_tx) == _tk, _tw[_te[_tx]], z3.RealVal(0)),
+                                          patterns=[TSUM(_te, _tw, z3.Store(_tb, _tx, _tb[_tx] + 1), _tk)]),
+    # two lists with the same records have the same sum (extensionality of the list-as-bag, made available to E-matching)
+    "tsum_t_ext": z3.ForAll([_te, _tw, _tb, _tb2, _tk], z3.Or(TSUM(_te, _tw, _tb, _tk) == TSUM(_te, _tw, _tb2, _tk), _tb[TSDIFF(_tb, _tb2)] != _tb2[TSDIFF(_tb, _tb2)]),
+                            patterns=[z3.MultiPattern(TSUM(_te, _tw, _tb, _tk), TSUM(_te, _tw, _tb2, _tk))]),
+    "wstart_0 (definition)": z3.ForAll([_wt], WSTART(0, _wt) == 0, patterns=[WSTART(0, _wt)]),
+    "wstart_step (definition)": z3.ForAll([_ww, _wt], z3.Implies(_ww >= 0, WSTART(_ww + 1, _wt) == WSTART(_ww, _wt) + _wt), patterns=[WSTART(_ww + 1, _wt)]),
+})
+VIEWS["tsum"] = lambda eng, p, h, B, e: T.sv_real(TSUM(h.fields["_edge_list"].val, h.fields["_weights"].val, B.t, e.t))
+VIEWS["wstart"] = lambda eng, p, h, w, t: T.sv_int(WSTART(eng.coerce(w, T.INT).t, eng.coerce(t, T.INT).t))
+
+INW = "(wstart(self, w, time_window) <= fst(r) and fst(r) < wstart(self, w, time_window) + time_window)"
+
+
+def _windows(m, cond):
+    """clauses about every stored window w of the dict m (cond: which w are meant)"""
+    return {
+        "wf": f"all(implies({cond}, wf({m}[w])) for w in Int)",
+        "weighted": f"all(implies({cond}, weighted({m}[w]) == weighted(self)) for w in Int)",
+        "V": f"all(implies({cond}, (n in V({m}[w])) == (n in V(self))) for w in Int for n in Node)",
+        "E": f"all(implies({cond}, (e in E({m}[w])) == any(pair(t, e) in E(self) and wstart(self, w, time_window) <= t and t < wstart(self, w, time_window) + time_window for t in Int)) "
+             "for w in Int for e in Tuple)",
+        "W": f"implies(weighted(self), all(implies({cond} and e in E({m}[w]), W({m}[w], e) == tsum(self, listing({{r for r in E(self) if {INW}}}), e)) for w in Int for e in Tuple))",
+    }
+
+
+MT = 'local("max_time", "Int")'
+SL = 'local("sorted_edges", "Seq[Pair[Int,Tup]]")'
+CONTRACTS += [
+    C("aggregate", params={"time_window": "Int"}, result="Map[Int,Obj[Hypergraph]]", pure=True, options={"sorted_records"},
+      locals={"aggregated": "Map[Int,Obj[Hypergraph]]", "edges_in_window": "Bag[Pair[Int,Tup]]", "sorted_edges": "Seq[Pair[Int,Tup]]"},
+      requires={"wf": "wf(self)"},
+      raises={"TypeError": "time_window <= 0"},
+      ensures={"empty": "implies(card(E(self)) == 0, all(w not in result for w in Int))",
+               # the sorted listing L of the records (every record at exactly one position) and the largest time in it
+               "listing": f"implies(card(E(self)) != 0, all(implies(0 <= m and m < len({SL}), {SL}[m] in E(self)) for m in Int) and "
+                          f"all(implies(r in E(self), 0 <= seqpos({SL}, r) and seqpos({SL}, r) < len({SL}) and {SL}[seqpos({SL}, r)] == r) for r in Key))",
+               "max_time": f"implies(card(E(self)) != 0, any(0 <= m and m < len({SL}) and fst({SL}[m]) == {MT} for m in Int) and "
+                           f"all(implies(0 <= m and m < len({SL}), fst({SL}[m]) <= {MT}) for m in Int))",
+               # windows 0 .. K-1, the last one being the one that contains the largest time
+               "keys": f"implies(card(E(self)) != 0, any(K >= 1 and all((w in result) == (0 <= w and w < K) for w in Int) and wstart(self, K - 1, time_window) <= {MT} "
+                       f"and {MT} < wstart(self, K, time_window) for K in Int))",
+               **_windows("result", "w in result")},
+      invariants={
+          0: {"mt_bound": "all(implies(0 <= m and m < len(sorted_edges), fst(sorted_edges[m]) <= max_time) for m in Int)",
+              "mt_witness": "any(0 <= m and m < len(sorted_edges) and fst(sorted_edges[m]) == max_time for m in Int)",
+              "nwc": "num_windows_created >= 0 and t_start == wstart(self, num_windows_created, time_window) and t_end == t_start + time_window",
+              "prev": "implies(num_windows_created >= 1, wstart(self, num_windows_created - 1, time_window) <= max_time)",
+              "win_empty": "all(count(edges_in_window, r) == 0 for r in Key)",
+              "ei": "0 <= edge_index and edge_index <= len(sorted_edges)",
+              "before": "all(implies(0 <= m and m < edge_index, fst(sorted_edges[m]) < t_start) for m in Int)",
+              "after": "all(implies(edge_index <= m and m < len(sorted_edges), fst(sorted_edges[m]) >= t_start) for m in Int)",
+              "keys": "all((w in aggregated) == (0 <= w and w < num_windows_created) for w in Int)",
+              **_windows("aggregated", "w in aggregated")},
+          1: {"ei": "pre(edge_index) <= edge_index and edge_index <= len(sorted_edges)",
+              "win": "all(count(edges_in_window, r) == (1 if r in E(self) and pre(edge_index) <= seqpos(sorted_edges, r) and seqpos(sorted_edges, r) < edge_index else 0) for r in Key)",
+              "in_window": "all(implies(pre(edge_index) <= m and m < edge_index, t_start <= fst(sorted_edges[m]) and fst(sorted_edges[m]) < t_end) for m in Int)"},
+          2: {"wf": "wf(Hypergraph_t)", "weighted": "weighted(Hypergraph_t) == weighted(self)",
+              "E": "all((e in E(Hypergraph_t)) == any(count(_done2, pair(t, e)) >= 1 for t in Int) for e in Tuple)",
+              "W": "implies(weighted(self), all(W(Hypergraph_t, e) == tsum(self, _done2, e) for e in E(Hypergraph_t)))",
+              "W0": "all(tsum(self, _done2, e) == 0 for e in Tuple if e not in E(Hypergraph_t))",
+              "V": "all((n in V(Hypergraph_t)) == any(count(_done2, pair(t, e)) >= 1 and n in e for t in Int for e in Tuple) for n in Node)"},
+          3: {"wf": "wf(Hypergraph_t)", "weighted": "weighted(Hypergraph_t) == weighted(self)",
+              "E": "all((e in E(Hypergraph_t)) == any(count(edges_in_window, pair(t, e)) >= 1 for t in Int) for e in Tuple)",
+              "W": "implies(weighted(self), all(W(Hypergraph_t, e) == tsum(self, edges_in_window, e) for e in E(Hypergraph_t)))",
+              "V": "all((n in V(Hypergraph_t)) == (any(count(edges_in_window, pair(t, e)) >= 1 and n in e for t in Int for e in Tuple) or count(_done3, n) >= 1) for n in Node)"},
+      },
+      properties=["C03"]),
+]
